@@ -772,6 +772,19 @@ func c15Part1(e *Env, st *c15Stats, root string) {
 			cs.srcs = []c15Src{{a, in, pos}}
 		} else {
 			cs.srcs = c15Sources(r, rr, perSpec)
+			// the same outsider knocks again right away (and once more): a repeat offender gets the same
+			// treatment as a first-time one
+			var withRepeats []c15Src
+			for i, sc := range cs.srcs {
+				withRepeats = append(withRepeats, sc)
+				if !sc.inside && i%2 == 0 {
+					withRepeats = append(withRepeats, sc)
+					if i%4 == 0 {
+						withRepeats = append(withRepeats, sc)
+					}
+				}
+			}
+			cs.srcs = withRepeats
 		}
 		cases = append(cases, cs)
 	}
@@ -1001,15 +1014,16 @@ func c15JudgeLimit(ev []c15Event, n int) c15LimitReport {
 // part 2: schedules
 
 type c15Sched struct {
-	L          *c15Launch
-	N          int
-	r          *rand.Rand
-	H, Wq, Rq  []*c15Client // held (answered, open) | waiting (sent, unanswered) | rejected arrivals not yet seen closed
-	steps      []string
-	lastDepart string
-	abort      bool
-	over       bool
-	name       string
+	L           *c15Launch
+	N           int
+	r           *rand.Rand
+	H, Wq, Rq   []*c15Client // held (answered, open) | waiting (sent, unanswered) | rejected arrivals not yet seen closed
+	steps       []string
+	lastDepart  string
+	lastOutside netip.Addr
+	abort       bool
+	over        bool
+	name        string
 }
 
 func (s *c15Sched) wd() time.Duration { return s.L.e.Watchdog }
@@ -1058,8 +1072,12 @@ func (s *c15Sched) pickInside() netip.Addr {
 }
 
 func (s *c15Sched) pickOutside() netip.Addr {
+	if s.lastOutside.IsValid() && s.r.Intn(2) == 0 {
+		return s.lastOutside // a repeat offender
+	}
 	for {
 		if a := c15RandLoop(s.r); c15Usable(a) && !s.L.rr.contains(a) {
+			s.lastOutside = a
 			return a
 		}
 	}
